@@ -277,6 +277,12 @@ impl VhostUserBackendReqHandlerMut for Rec {
         match self.oc() {
             0 => Ok(full),
             2 => Ok(full[..full.len().saturating_sub(1)].to_vec()),
+            // wrong length the other way: more bytes than were asked for
+            5 => {
+                let mut long = full;
+                long.push(0xee);
+                Ok(long)
+            }
             _ => self.fail(),
         }
     }
